@@ -375,7 +375,7 @@ Qed.
 Lemma xstep_ok c s o s' x l : inv c s -> xstep Fixed c s o = (s', x, l) -> inv c s' /\ calls_ok c l = true.
 Proof.
   intros [Hm Hc] H. unfold xstep in H.
-  destruct o as [o|q sn|names|].
+  destruct o as [o|q opts|names|].
   - destruct o.
     + destruct (valid_put k v t); [|inversion H; subst; split; [split; assumption|reflexivity]].
       destruct (fs_put c 0 (s_main s) (s_nx s) (tkey k) (tval v) (map app_tag t)) as [[[m nx] y] l1] eqn:HP.
@@ -403,6 +403,7 @@ Proof.
   - destruct (is_nil q); [inversion H; subst; split; [split; assumption|reflexivity]|].
     destruct (fs_query c 0 (s_main s) (s_nx s) (split_colon (expr_toks q) [])) as [[nx y] l1] eqn:HP.
     apply fs_query_ok in HP. inversion H; subst. split; [split; assumption|].
+    destruct (last_sort opts None) as [n|]; [|assumption]. destruct (N.eqb n 0); [assumption|].
     apply add_sort_ok; [apply mac64_ok|assumption].
   - destruct (existsb colon_name names); [inversion H; subst; split; [split; assumption|reflexivity]|].
     destruct (format c (s_nx s) None None
